@@ -530,6 +530,9 @@ def rdataNames : RData → List Name
   | .mx _ n => [n]
   | .soa m r _ _ _ _ _ => [m, r]
   | .srv _ _ _ n => [n]
+  | .sig _ _ _ _ _ _ _ n _ => [n]
+  | .nsec n _ => [n]
+  | .tsig n _ _ _ _ _ _ => [n]
   | _ => []
 
 def recordNames (r : Record) : List Name := r.name :: rdataNames r.rdata
@@ -572,6 +575,7 @@ def TypeOK (t : Nat) : RData → Prop
   | .opaque t' _ => t' = t
   | .opt _ => t = 41
   | .update0 t' => t' = t
+  | .tsig _ _ _ _ _ _ _ => t = 250
   | _ => True
 
 /-- postcondition on RDATA decoded for type `t`: every name inside is bounded, variant matches -/
@@ -583,6 +587,159 @@ theorem RP_nil {t : Nat} {rd : RData} (h : rdataNames rd = []) (h2 : TypeOK t rd
 
 macro "sat_done " h:term : tactic =>
   `(tactic| exact (Sat.weaken $h (Nat.le_refl _) (by omega) (by omega) (fun _ h => h)))
+
+theorem satAt_bind_index {β} (f : Nat → Rd β) (buf : Bytes) (st : DSt) (K c m : Nat) (Q : β → Prop) :
+    SatAt (Rd.bind Rd.index f) buf st K c m Q ↔ SatAt (f st.pos) buf st K c m Q := Iff.rfl
+
+theorem satAt_bind_remaining {β} (f : Nat → Rd β) (buf : Bytes) (st : DSt) (K c m : Nat) (Q : β → Prop) :
+    SatAt (Rd.bind Rd.remaining f) buf st K c m Q ↔ SatAt (f (buf.length - st.pos)) buf st K c m Q := Iff.rfl
+
+/-- pointwise use of a contract, at rate 1 and without the minimum-consumption information -/
+theorem Sat.at1 {α} {r : Rd α} {c m : Nat} {P : α → Prop} (h : Sat r 0 c m P) (buf : Bytes) (st : DSt)
+    (hst : st.pos ≤ buf.length) : SatAt r buf st 1 c 0 P :=
+  (h buf st hst).weaken (Nat.zero_le _) (Nat.le_refl _) (Nat.zero_le _) (fun _ h => h)
+
+theorem parseBitmap_ne_panic (d : Bytes) (stt : BmState) (acc : List Nat) (s : String) :
+    parseBitmap d stt acc ≠ .panic s := by
+  fun_induction parseBitmap d stt acc <;> simp_all
+
+theorem readTypeSet_sat : Sat readTypeSet 1 0 0 (fun _ => True) := by
+  unfold readTypeSet
+  exact Sat.toEnd (fun d s => parseBitmap_ne_panic d _ _ s) (fun d => Nat.le_refl _) (fun _ _ _ => trivial)
+
+/-- `TSIG::read_data`: `end_idx - decoder.index()` cannot underflow (`end_idx` is the buffer length) -/
+theorem readTsig_sat : Sat readTsig 1 33024 0 (RP 250) := by
+  intro buf st hst
+  unfold readTsig
+  simp only [bind_eq, pure_eq]
+  rw [satAt_bind_remaining, satAt_bind_index]
+  have hend : buf.length - st.pos + st.pos = buf.length := by omega
+  simp only [hend]
+  refine SatAt.weaken (SatAt.bind (c1 := 16512) (c2 := 0) (m1 := 0) (m2 := 0) (Sat.name.at1 buf st hst) ?_)
+    (Nat.le_refl _) (by omega) (by omega) (fun _ h => h)
+  intro alg st1 _ halg _ h1
+  refine SatAt.weaken (SatAt.bind (c1 := 0) (c2 := 0) (m1 := 0) (m2 := 0) (Sat.readU16.at1 buf st1 h1) ?_)
+    (Nat.le_refl _) (by omega) (by omega) (fun _ h => h)
+  intro th st2 _ _ _ h2
+  refine SatAt.weaken (SatAt.bind (c1 := 0) (c2 := 0) (m1 := 0) (m2 := 0) (Sat.readU32.at1 buf st2 h2) ?_)
+    (Nat.le_refl _) (by omega) (by omega) (fun _ h => h)
+  intro tl st3 _ _ _ h3
+  refine SatAt.weaken (SatAt.bind (c1 := 0) (c2 := 0) (m1 := 0) (m2 := 0) (Sat.readU16.at1 buf st3 h3) ?_)
+    (Nat.le_refl _) (by omega) (by omega) (fun _ h => h)
+  intro fudge st4 _ _ _ h4
+  refine SatAt.weaken (SatAt.bind (c1 := 0) (c2 := 0) (m1 := 0) (m2 := 0) (Sat.readU16.at1 buf st4 h4) ?_)
+    (Nat.le_refl _) (by omega) (by omega) (fun _ h => h)
+  intro macSize st5 _ _ _ h5
+  rw [satAt_bind_index]
+  have hno5 : ¬ buf.length < st5.pos := by omega
+  simp only [hno5, if_false]
+  by_cases hc : ¬ (st5.pos + macSize + 6 ≤ buf.length)
+  · simp only [hc, if_true]
+    exact Sat.fail.at1 buf st5 h5
+  · simp only [hc, if_false]
+    refine SatAt.weaken (SatAt.bind (c1 := 0) (c2 := 0) (m1 := 0) (m2 := 0) ((Sat.readSlice macSize).at1 buf st5 h5) ?_)
+      (Nat.le_refl _) (by omega) (by omega) (fun _ h => h)
+    intro mac st6 _ _ _ h6
+    refine SatAt.weaken (SatAt.bind (c1 := 0) (c2 := 0) (m1 := 0) (m2 := 0) (Sat.readU16.at1 buf st6 h6) ?_)
+      (Nat.le_refl _) (by omega) (by omega) (fun _ h => h)
+    intro oid st7 _ _ _ h7
+    refine SatAt.weaken (SatAt.bind (c1 := 0) (c2 := 0) (m1 := 0) (m2 := 0) (Sat.readU16.at1 buf st7 h7) ?_)
+      (Nat.le_refl _) (by omega) (by omega) (fun _ h => h)
+    intro err st8 _ _ _ h8
+    refine SatAt.weaken (SatAt.bind (c1 := 0) (c2 := 0) (m1 := 0) (m2 := 0) (Sat.readU16.at1 buf st8 h8) ?_)
+      (Nat.le_refl _) (by omega) (by omega) (fun _ h => h)
+    intro otherLen st9 _ _ _ h9
+    rw [satAt_bind_index]
+    have hno9 : ¬ buf.length < st9.pos := by omega
+    simp only [hno9, if_false]
+    by_cases hc2 : ¬ (st9.pos + otherLen = buf.length)
+    · simp only [hc2, if_true]
+      exact Sat.fail.at1 buf st9 h9
+    · simp only [hc2, if_false]
+      refine SatAt.weaken (SatAt.bind (c1 := 0) (c2 := 0) (m1 := 0) (m2 := 0) ((Sat.readSlice otherLen).at1 buf st9 h9) ?_)
+        (Nat.le_refl _) (by omega) (by omega) (fun _ h => h)
+      intro other st10 _ _ _ h10
+      refine (Sat.pure (P := RP 250) (RData.tsig { alg with fqdn := false } (th * 4294967296 + tl) fudge mac oid err other) ⟨?_, rfl⟩).at1 buf st10 h10
+      intro x hx
+      simp only [rdataNames, List.mem_singleton] at hx
+      subst hx
+      exact halg
+
+theorem readNsec3Head_sat : Sat readNsec3Head 1 0 0 (fun _ => True) := by
+  unfold readNsec3Head
+  simp only [bind_eq, pure_eq]
+  have h := Sat.bind (K := 1) (Q := fun _ : Bool × Nat × Bytes => True) Sat.pop.liftK fun alg _ =>
+    Sat.ite (c := 0) (m := 0) (alg ≠ 1) (fun _ => Sat.fail.liftK) (fun _ =>
+      (Sat.bind Sat.pop.liftK fun flags _ =>
+        Sat.ite (c := 0) (m := 0) (flags / 2 ≠ 0) (fun _ => Sat.fail.liftK) (fun _ =>
+          (Sat.bind Sat.readU16.liftK fun iter _ => Sat.bind Sat.pop.liftK fun saltLen _ =>
+            Sat.bind Sat.remaining.liftK fun left _ =>
+            Sat.ite (c := 0) (m := 0) (saltLen > left) (fun _ => Sat.fail.liftK) (fun _ =>
+              (Sat.bind (Sat.readSlice saltLen).liftK fun salt _ =>
+                (Sat.pure (P := fun _ : Bool × Nat × Bytes => True) (decide (flags % 2 = 1), iter, salt) trivial).liftK).weaken
+                (Nat.le_refl _) (by omega) (by omega) (fun _ h => h))).weaken
+            (Nat.le_refl _) (by omega) (by omega) (fun _ h => h))).weaken
+        (Nat.le_refl _) (by omega) (by omega) (fun _ h => h))
+  sat_done h
+
+/-- `DNSSECRData::read`: reached only for `is_dnssec()` types other than TSIG, all of which have an
+arm — the `panic!("not a dnssec RecordType")` arm is dead. -/
+theorem readDnssec_sat (opq : Nat → Rd Bytes) (hq : OpqOK opq) (t : Nat) (hd : isDnssec t = true)
+    (ht : t ≠ 250) : Sat (readDnssec opq t) 1 33024 0 (RP t) := by
+  unfold readDnssec
+  simp only [bind_eq, pure_eq]
+  have hds : Sat (Rd.readU16.bind fun tag => Rd.pop.bind fun alg => Rd.pop.bind fun dt =>
+      Rd.readVecToEnd.bind fun d => Rd.pure (RData.ds tag alg dt d)) 1 33024 0 (RP t) := by
+    have h := Sat.bind (K := 1) Sat.readU16.liftK fun tag _ => Sat.bind Sat.pop.liftK fun alg _ =>
+      Sat.bind Sat.pop.liftK fun dt _ => Sat.bind Sat.readVecToEnd.liftK fun d _ =>
+      (Sat.pure (P := RP t) (RData.ds tag alg dt d) (RP_nil rfl trivial)).liftK
+    sat_done h
+  have hkey : ∀ cd : Bool, Sat (Rd.readU16.bind fun flags => Rd.pop.bind fun proto =>
+      if proto ≠ 3 then Rd.fail
+      else Rd.pop.bind fun alg => Rd.readVecToEnd.bind fun k => Rd.pure (RData.dnskey cd flags alg k))
+      1 33024 0 (RP t) := fun cd => by
+    have h := Sat.bind (K := 1) Sat.readU16.liftK fun flags _ => Sat.bind Sat.pop.liftK fun proto _ =>
+      Sat.ite (c := 0) (m := 0) (proto ≠ 3) (fun _ => Sat.fail.liftK) (fun _ =>
+        (Sat.bind Sat.pop.liftK fun alg _ => Sat.bind Sat.readVecToEnd.liftK fun k _ =>
+          (Sat.pure (P := RP t) (RData.dnskey cd flags alg k) (RP_nil rfl trivial)).liftK).weaken
+          (Nat.le_refl _) (by omega) (by omega) (fun _ h => h))
+    sat_done h
+  refine Sat.ite _ (fun _ => hds) (fun h43 => ?_)
+  refine Sat.ite _ (fun _ => hds) (fun h59 => ?_)
+  refine Sat.ite _ (fun _ => hkey false) (fun h48 => ?_)
+  refine Sat.ite _ (fun _ => hkey true) (fun h60 => ?_)
+  refine Sat.ite _ (fun _ => ?_) (fun h46 => ?_)
+  · have h := Sat.bind (K := 1) Sat.readU16.liftK fun covered _ => Sat.bind Sat.pop.liftK fun alg _ =>
+      Sat.bind Sat.pop.liftK fun labels _ => Sat.bind Sat.readU32.liftK fun ottl _ =>
+      Sat.bind Sat.readU32.liftK fun exp _ => Sat.bind Sat.readU32.liftK fun inc _ =>
+      Sat.bind Sat.readU16.liftK fun tag _ => Sat.bind Sat.name.liftK fun signer hn =>
+      Sat.bind Sat.readVecToEnd.liftK fun sg _ =>
+      (Sat.pure (P := RP t) (RData.sig covered alg labels ottl exp inc tag signer sg)
+        ⟨by intro x hx; simp [rdataNames] at hx; exact hx ▸ hn, trivial⟩).liftK
+    sat_done h
+  refine Sat.ite _ (fun _ => ?_) (fun h47 => ?_)
+  · have h := Sat.bind (K := 1) Sat.name.liftK fun next hn => Sat.bind readTypeSet_sat fun ts _ =>
+      (Sat.pure (P := RP t) (RData.nsec next ts)
+        ⟨by intro x hx; simp [rdataNames] at hx; exact hx ▸ hn, trivial⟩).liftK
+    sat_done h
+  refine Sat.ite _ (fun _ => ?_) (fun h50 => ?_)
+  · have h := Sat.bind (K := 1) readNsec3Head_sat fun x _ => Sat.bind Sat.pop.liftK fun hashLen _ =>
+      Sat.bind Sat.remaining.liftK fun left _ =>
+      Sat.ite (c := 0) (m := 0) (hashLen > left) (fun _ => Sat.fail.liftK) (fun _ =>
+        (Sat.bind (Sat.readSlice hashLen).liftK fun hash _ => Sat.bind readTypeSet_sat fun ts _ =>
+          (Sat.pure (P := RP t) (RData.nsec3 x.1 x.2.1 x.2.2 hash ts) (RP_nil rfl trivial)).liftK).weaken
+          (Nat.le_refl _) (by omega) (by omega) (fun _ h => h))
+    sat_done h
+  refine Sat.ite _ (fun _ => ?_) (fun h51 => ?_)
+  · have h := Sat.bind (K := 1) readNsec3Head_sat fun x _ =>
+      (Sat.pure (P := RP t) (RData.nsec3param x.1 x.2.1 x.2.2) (RP_nil rfl trivial)).liftK
+    sat_done h
+  refine Sat.ite _ (fun _ => ?_) (fun h25 => ?_)
+  · have h := Sat.bind (hq t) fun v _ => (Sat.pure (P := RP t) (RData.opaque t v) (RP_nil rfl rfl)).liftK
+    sat_done h
+  · exfalso
+    simp only [isDnssec, List.contains_cons, List.contains_nil, Bool.or_false, Bool.or_eq_true, beq_iff_eq] at hd
+    omega
 
 theorem readRDataBody_sat (opq : Nat → Rd Bytes) (hq : OpqOK opq) (t : Nat) :
     Sat (readRDataBody opq t) 1 33024 0 (RP t) := by
@@ -643,12 +800,46 @@ theorem readRDataBody_sat (opq : Nat → Rd Bytes) (hq : OpqOK opq) (t : Nat) :
     sat_done h
   refine Sat.ite _ (fun _ => ?_) (fun _ => ?_)
   · sat_done (Sat.pure (P := RP t) RData.zero (RP_nil rfl trivial)).liftK (K := 1)
+  refine Sat.ite _ (fun h250 => ?_) (fun hn250 => ?_)
+  · subst h250; exact readTsig_sat
+  refine Sat.ite _ (fun _ => ?_) (fun _ => ?_)
+  · have h := Sat.bind (K := 1) Sat.remaining.liftK fun left _ =>
+      Sat.ite (c := 0) (m := 0) (left ≤ 5) (fun _ => Sat.fail.liftK) (fun _ =>
+        (Sat.bind Sat.readU16.liftK fun ct _ => Sat.bind Sat.readU16.liftK fun tag _ =>
+          Sat.bind Sat.pop.liftK fun alg _ => Sat.bind Sat.readVecToEnd.liftK fun d _ =>
+          (Sat.pure (P := RP t) (RData.cert ct tag alg d) (RP_nil rfl trivial)).liftK).weaken
+          (Nat.le_refl _) (by omega) (by omega) (fun _ h => h))
+    sat_done h
+  refine Sat.ite _ (fun _ => ?_) (fun _ => ?_)
+  · have h := Sat.bind (K := 1) Sat.readU32.liftK fun serial _ => Sat.bind Sat.readU16.liftK fun flags _ =>
+      Sat.ite (c := 0) (m := 0) ((flags % 256) / 4 ≠ 0) (fun _ => Sat.fail.liftK) (fun _ =>
+        (Sat.bind readTypeSet_sat fun ts _ =>
+          (Sat.pure (P := RP t) (RData.csync serial flags ts) (RP_nil rfl trivial)).liftK).weaken
+          (Nat.le_refl _) (by omega) (by omega) (fun _ h => h))
+    sat_done h
+  refine Sat.ite _ (fun _ => ?_) (fun _ => ?_)
+  · have h := Sat.bind (K := 1) Sat.pop.liftK fun u _ => Sat.bind Sat.pop.liftK fun sel _ =>
+      Sat.bind Sat.pop.liftK fun m _ => Sat.bind Sat.readVecToEnd.liftK fun d _ =>
+      (Sat.pure (P := RP t) (RData.tlsa u sel m d) (RP_nil rfl trivial)).liftK
+    sat_done h
+  refine Sat.ite _ (fun _ => ?_) (fun _ => ?_)
+  · have h := Sat.bind (K := 1) Sat.pop.liftK fun a _ => Sat.bind Sat.pop.liftK fun f _ =>
+      Sat.bind Sat.readVecToEnd.liftK fun d _ =>
+      (Sat.pure (P := RP t) (RData.sshfp a f d) (RP_nil rfl trivial)).liftK
+    sat_done h
+  refine Sat.ite _ (fun _ => ?_) (fun _ => ?_)
+  · have h := Sat.bind (K := 1) Sat.readVecToEnd.liftK fun d _ =>
+      (Sat.pure (P := RP t) (RData.openpgpkey d) (RP_nil rfl trivial)).liftK
+    sat_done h
+  refine Sat.ite _ (fun hd => ?_) (fun _ => ?_)
+  · exact readDnssec_sat opq hq t hd hn250
   refine Sat.ite _ (fun _ => ?_) (fun _ => ?_)
   · have h := Sat.bind (hq t) fun v _ => (Sat.pure (P := RP t) (RData.opaque t v) (RP_nil rfl rfl)).liftK
     sat_done h
   · have h := Sat.bind (K := 1) Sat.readVecToEnd.liftK fun d _ =>
       (Sat.pure (P := RP t) (RData.unknown t d) (RP_nil rfl trivial)).liftK
     sat_done h
+
 
 theorem index_eq {buf : Bytes} {st st1 : DSt} {i : Nat} (h : Rd.index buf st = (.ok i, st1)) :
     st.pos = i ∧ st = st1 := by
@@ -833,11 +1024,9 @@ theorem readRecords_sat (opq : Nat → Rd Bytes) (hq : OpqOK opq) (isAdd : Bool)
     refine Sat.ite _ (fun _ => hF) (fun _ => ?_)
     refine Sat.ite _ (fun _ => hpush) (fun _ => ?_)
     cases hrd : r.rdata with
-    | «opaque» t v =>
+    | tsig _ _ _ _ _ _ _ =>
       simp only
-      have hty : t = r.rtype := by have := hr.2; rw [hrd] at this; exact this
-      refine Sat.ite _ (fun h250 => ?_) (fun _ => hpush)
-      refine Sat.ite _ (fun hne => absurd (hty ▸ h250) hne) (fun _ => ih _ (AccP_sig hacc hr))
+      exact ih _ (AccP_sig hacc hr)
     | opt os =>
       simp only
       have hty : r.rtype = T_OPT := by have := hr.2; rw [hrd] at this; exact this
@@ -978,8 +1167,12 @@ theorem readRData_no_panic (opq : Nat → Rd Bytes) (hq : OpqOK opq) (t : Nat) (
 `readRData_no_panic` is unconditional there -/
 theorem readRData_modelled_indep (opq opq' : Nat → Rd Bytes) (t : Nat) (ht : unmodelled.contains t = false) :
     readRData opq t = readRData opq' t := by
+  have h25 : t ≠ 25 := by
+    intro h; subst h; simp [unmodelled] at ht
+  have hd : readDnssec opq t = readDnssec opq' t := by
+    unfold readDnssec; simp only [h25, if_false]
   unfold readRData readRDataBody
-  simp only [ht]
+  simp only [ht, hd]
   rfl
 
 theorem opqFail_ok : OpqOK (fun _ => Rd.fail) := fun _ =>
